@@ -388,3 +388,17 @@ CHECKS["C16"]["harnesses"].append(
 CHECKS["C15"]["harnesses"].append(
     {"pkg": "graphql/handler/extension", "harness": "Harness_C15_concurrent", "workers": 8, "race": True, "reach": ["apq.concurrent"], "quick": {"sample_models": 12, "sample_every": 3},
      "what": "two requests carrying text and hash handled concurrently by one AutomaticPersistedQuery extension (own hash / another text's hash x 2 texts each), every explored schedule under the happens-before race check: each verdict is the one the request gets alone, the store only maps a hash to the text with that SHA-256"})
+
+CHECKS["C04"]["harnesses"].append(
+    {"probe": "core", "harness": "Harness_C04_extensionDup", "setup": "Setup_C04_extensionDup", "reach": ["c04.extdup", "c04.extdup.panic"], "workers": 6, "sched": "first",
+     "configs_quick": ["single"], "configs_thorough": ["single", "follow", "wl1"], "quick": {"sample_models": 8},
+     "what": "user code misusing an API that panics inside gqlgen (every resolver-backed field registers the same response extension): each later registration fails its position like a panicking resolver, the operation completes (deadlock detection), recover hook once per panic"})
+
+CHECKS["C03"]["harnesses"].append(
+    {"pkg": "graphql/executor", "harness": "Harness_C03_cacheKeys", "setup": "Setup_C03_cacheKeys", "reach": ["c03.cachekeys"], "workers": 6, "quick": {"sample_models": 15},
+     "what": "query cache = map cache / LRU(10) / LRU(1): a valid document served first, then an invalid one differing only in white space, line ends or comments (5 twin pairs): rejected, nothing runs"})
+
+CHECKS["C06"]["harnesses"].append(
+    {"probe": "core", "harness": "Harness_C06_listInvalids", "setup": "Setup_C06_schedules", "reach": ["c06.listinvalids"], "workers": 8, "race": True,
+     "configs_quick": ["single", "wl1", "wl2"], "configs_thorough": ["single", "wl1", "wl2", "follow_wl2"], "quick": {"sample_models": 6, "sample_every": 5}, "thorough": {"preempt": 1, "sample_models": 10, "sample_every": 31},
+     "what": "three elements of a [T!] list each failing in a non-null field, worker_limit 0/1/2: the list is null and all three errors are reported on every completion order; race check"})
